@@ -300,8 +300,8 @@ def directed_c01():
     D = []
     Y = lambda e: ("yield", e)
     E = lambda n: ("eff", n)
-    D.append(("sw_break_after_yield", [("switch", None, "a%2", [("1", [("if", "g1", [Y("a + 1"), ("break",)], None), Y("b + 2")])], [Y("a + 3")]), Y("b + 4")]))
-    D.append(("sw_break_first", [("switch", None, "a%2", [("1", [("if", "g1", [("break",)], None), Y("b + 2")])], [Y("a + 3")]), Y("b + 4")]))
+    D.append(("sw_break_after_yield", [("switch", None, "a&1", [("1", [("if", "g1", [Y("a + 1"), ("break",)], None), Y("b + 2")])], [Y("a + 3")]), Y("b + 4")]))
+    D.append(("sw_break_first", [("switch", None, "a&1", [("1", [("if", "g1", [("break",)], None), Y("b + 2")])], [Y("a + 3")]), Y("b + 4")]))
     D.append(("continue_yield_post", [("decl", "i", "0"), ("for", None, "i < n", Y("i + 100"), [("inc", "i"), ("if", "g1", [("continue",)], None), Y("i + 1")])]))
     D.append(("continue_yieldfrom_post", [("decl", "i", "0"), ("for", None, "i < n", ("yieldfrom", "H2(i)"), [("inc", "i"), ("if", "g1", [("continue",)], None), E(1)])]))
     D.append(("scope_break_block", [("for", ("decl", "i", "0"), "i < n", ("inc", "i"), [("decl", "i", "a"), ("block", [("if", "g1", [Y("i + 1")], [("break",)])])])]))
@@ -313,16 +313,16 @@ def directed_c01():
     D.append(("elif_chain", [("if", "g1", [Y("a + 1")], [("if", "g2", [Y("b + 2")], [E(1)])]), E(2)]))
     D.append(("nested_for_cont_break", [("for", ("decl", "i", "0"), "i < n", ("inc", "i"), [("for", ("decl", "j", "0"), "j < n", ("inc", "j"), [("if", "g1", [("continue",)], None), ("if", "g2", [("break",)], None), Y("i*4 + j")])])]))
     D.append(("tswitch", [("raw", "var x any = a\nif g1 {\n\tx = \"s\"\n}"), ("tswitch", "v", "x", [("int", [Y("v + 1")]), ("string", [Y("len(v) + 2")])], [("return",)]), Y("b + 3")]))
-    D.append(("switch_init", [("switch", ("decl", "z", "a%3"), "z", [("0", [Y("z + 1")]), ("1", [E(1)])], [Y("z + 2")]), Y("b + 3")]))
-    D.append(("switch_in_loop_break_continue", [("for", ("decl", "i", "0"), "i < n", ("inc", "i"), [("switch", None, "i%3", [("0", [Y("i + 1"), ("continue",)]), ("1", [("break",)])], [Y("i + 2")]), Y("i + 3")])]))
+    D.append(("switch_init", [("switch", ("decl", "z", "a&3"), "z", [("0", [Y("z + 1")]), ("1", [E(1)])], [Y("z + 2")]), Y("b + 3")]))
+    D.append(("switch_in_loop_break_continue", [("for", ("decl", "i", "0"), "i < n", ("inc", "i"), [("switch", None, "i&3", [("0", [Y("i + 1"), ("continue",)]), ("1", [("break",)])], [Y("i + 2")]), Y("i + 3")])]))
     D.append(("loop_return_mid", [("for", ("decl", "i", "0"), "i < n", ("inc", "i"), [Y("i + 1"), ("if", "i == 1 && g1", [("return",)], None), E(1)]), Y("a + 9")]))
     D.append(("while_yield_first", [("decl", "i", "0"), ("for", None, "i < n", None, [Y("i + 1"), ("inc", "i"), ("if", "g1", [("continue",)], None), E(1)])]))
     D.append(("closure_loop", [("decl", "s", "0"), ("raw", "add := func(d int) { s += d }"), ("for", ("decl", "i", "0"), "i < n", ("inc", "i"), [("raw", "add(i + a)"), Y("s + 1")]), Y("s + 2")]))
     D.append(("native_loop_break_end", [("decl", "s", "0"), ("for", ("decl", "i", "0"), "i < n", ("inc", "i"), [("assign", "s", "s + i"), ("if", "g1", [("break",)], None)]), Y("s + 1")]))
-    D.append(("native_switch_end", [Y("a + 1"), ("decl", "s", "0"), ("switch", None, "a%2", [("0", [("assign", "s", "1")])], [("assign", "s", "2")]), ("effv", 1, "s")]))
+    D.append(("native_switch_end", [Y("a + 1"), ("decl", "s", "0"), ("switch", None, "a&1", [("0", [("assign", "s", "1")])], [("assign", "s", "2")]), ("effv", 1, "s")]))
     D.append(("tagless_switch", [("switch", None, None, [("a > b", [Y("a + 1")]), ("g1", [Y("b + 2")])], [E(1)]), Y("a + 3")]))
-    D.append(("case_ends_if", [("switch", None, "a%2", [("0", [E(1), ("if", "g1", [Y("a + 1")], None)])], [Y("b + 2")]), Y("a + 3")]))
-    D.append(("yielding_switch_ends_loop", [("for", ("decl", "i", "0"), "i < n", ("inc", "i"), [("switch", None, "i%2", [("0", [Y("i + 1")])], None)]), Y("a + 2")]))
+    D.append(("case_ends_if", [("switch", None, "a&1", [("0", [E(1), ("if", "g1", [Y("a + 1")], None)])], [Y("b + 2")]), Y("a + 3")]))
+    D.append(("yielding_switch_ends_loop", [("for", ("decl", "i", "0"), "i < n", ("inc", "i"), [("switch", None, "i&1", [("0", [Y("i + 1")])], None)]), Y("a + 2")]))
     return D
 
 
@@ -538,7 +538,7 @@ def directed_c05():
     D.append(("partially_consumed", [("raw", "it := H1(a)\nit.MoveNext()\nrt.Emit(44, it.Current())"), YF("it"), Y("b")]))
     D.append(("exhausted_before", [("raw", "it := H2(a)\nfor it.MoveNext() {\n}"), YF("it"), Y("b")]))
     D.append(("in_loop", [("for", ("decl", "i", "0"), "i < n", ("inc", "i"), [YF("H2(i)"), ("if", "g1", [("continue",)], None), Y("i + 100")])]))
-    D.append(("in_switch", [("switch", None, "a%2", [("0", [YF("H2(a)")])], [YF("H1(a)")]), Y("b")]))
+    D.append(("in_switch", [("switch", None, "a&1", [("0", [YF("H2(a)")])], [YF("H1(a)")]), Y("b")]))
     D.append(("for_post", [("decl", "i", "0"), ("for", None, "i < n", YF("H2(i)"), [("inc", "i"), Y("i + 100")])]))
     D.append(("for_init", [("decl", "i", "0"), ("for", YF("H2(a)"), "i < n", ("inc", "i"), [Y("i + 100")])]))
     D.append(("arg_once", [YF("rt.Eff(801, H2(rt.Eff(802, a)))"), E(1)]))
@@ -586,3 +586,50 @@ def plan_C05(ctx):
 
 
 CLAIMED["C05"] = plan_C05
+
+
+def directed_c03():
+    Y = lambda e: ("yield", e)
+    D = []
+    D.append(("shadow_block", [("decl", "x", "a + 1"), ("block", [("decl", "x", "b + 2"), Y("x + 3"), ("assign", "x", "x + 4"), Y("x + 5")]), Y("x + 6")]))
+    D.append(("for_post_scope", [("decl", "x", "a"), ("for", ("decl", "c", "0"), "c < n", ("yield", "x + c + 100"), [("decl", "x", "b + 1"), Y("x + 2"), ("inc", "c"), ("assign", "x", "x + 1"), ("effv", 5, "x")]), Y("x + 7")]))
+    D.append(("switch_init_conflict", [("decl", "z", "a + 1"), ("switch", ("decl", "z", "(b + 2) & 3"), "z", [("0", [Y("z + 3")]), ("1", [("decl", "z", "a + 4"), Y("z + 5")])], [Y("z + 6")]), Y("z + 7")]))
+    D.append(("closure_sees_update", [("decl", "x", "a"), ("raw", "get := func() int { return x }"), Y("get() + 1"), ("assign", "x", "x + b"), Y("get() + 2"), ("raw", "set := func(v int) { x = v }\nset(b + 3)"), Y("x + 4")]))
+    D.append(("closure_in_loop", [("decl", "s", "0"), ("for", ("decl", "i", "0"), "i < n", ("inc", "i"), [("raw", "add := func() { s += i + a }"), Y("s + 1"), ("raw", "add()"), Y("s + 2")]), Y("s + 3")]))
+    D.append(("range_shadow", [("decl", "x", "a + 1"), ("range", "x", "y", ":=", "[]int{a, b}", [Y("x + y + 2"), ("assign", "y", "y + x"), Y("y + 3")]), Y("x + 4")]))
+    D.append(("tswitch_scope", [("decl", "v", "a + 1"), ("raw", "var t any = b\nif g1 {\n\tt = \"s\"\n}"), ("tswitch", "v", "t", [("int", [Y("v + 2"), ("assign", "v", "v + 1"), Y("v + 3")]), ("string", [Y("len(v) + 4")])], None), Y("v + 5")]))
+    D.append(("init_after_yield", [Y("a + 1"), ("for", ("decl", "x", "a"), "x < a + n", ("inc", "x"), [Y("x + 2")]), ("decl", "x", "b"), Y("x + 3")]))
+    D.append(("if_else_scopes", [("decl", "x", "a"), ("if", "g1", [("decl", "x", "b + 1"), Y("x + 2")], [("assign", "x", "x + 3"), Y("x + 4")]), Y("x + 5")]))
+    return D
+
+
+def plan_C03(ctx):
+    K = ctx.q(6, 12)
+
+    def build(corp):
+        rng = random.Random(ctx.seed * 977 + 3)
+        n = 0
+        for name, body in directed_c03():
+            corp.add(gen.Program("d_%s" % name, body, named_result=(n % 2 == 0), family="scp", tags={"directed:" + name}))
+            n += 1
+        want = ctx.q(260, 2200)
+        tries = 0
+        while n < want and tries < want * 20:
+            tries += 1
+            smp = gen.ScopeSampler(rng)
+            body = smp.body([rng.randint(5, 14)], [], False, 0)
+            if not gen.contains_yield(body):
+                continue
+            corp.add(gen.Program("v%04d" % n, body, named_result=(n % 2 == 0), family="scp"))
+            n += 1
+        return {"programs_generated": n, "directed": len(directed_c03()),
+                "grammar": "declare/shadow/update x,y at function level, in blocks, if/else arms, for initialisers (also shadowing), switch and type-switch initialisers and clauses, range variables; reader/writer closures created before yields and called after"}
+
+    extra = {
+        "bounds": {"advances_K": K, "loop_bound_n": "[-1,3]", "outside": "program shapes not generated; closures escaping the generator (C06/C13); Go >= 1.22 per-iteration loop variables"},
+        "explanation": "every declaration is initialised from a distinct symbolic term (parameter + unique constant), so a reference resolved to the wrong variable yields a different term and the solver produces a distinguishing input; log = yields + value effects of every variable at the end of its scope",
+    }
+    return corpus_check(ctx, "c03", build, K, 0, extra, [REF_ASSUMPTION, PROGRAM_DIM], floors={"drivers_holds": ctx.q(100, 1000)})
+
+
+CLAIMED["C03"] = plan_C03
